@@ -1,4 +1,5 @@
 import NimaVerif.Model.Scope
+import NimaVerif.Model.NPath
 /-!
 L7 (b): `implResolve` — what `parse(text)[k1]…[kn].value` does, as a transliteration of
 
@@ -233,11 +234,23 @@ def itemId : Item → Nat
   | .inh id _ => id
   | .inhFrom id _ _ => id
 
-/-- `AttributeSet.__getitem__(self, key)` for a key without dots. -/
+/-- the `for binding in self.values` loop of `AttributeSet.__getitem__`: the FIRST `Binding` whose
+    name token denotes the same attribute as the key (`_same_attr_name(binding.name, key)`,
+    `sameName` of Model/NPath.lean) — `doc["a"]` finds `"a" = …;` and `doc["\"a\""]` finds `a = …;`.
+    `Scope.get_binding` (identifier resolution, `findBind`) still compares by spelling. -/
+def findBindKey (key : Text) : Scope → Option (Nat × Expr)
+  | [] => none
+  | .bind id n v :: rest => if sameName n key then some (id, v) else findBindKey key rest
+  | _ :: rest => findBindKey key rest
+
+/-- `AttributeSet.__getitem__(self, key)` for a key that `_split_attrpath` leaves in one piece (no
+    `.` outside quotes and `${…}`): the binding by what its name denotes, else the `inherit` clause
+    naming the key as spelled (`name.name == key`), else `KeyError` (the walk over the segments of
+    a dotted key is not reached). -/
 def getitemSet (k : Resolver) (st : St) (self : Expr) (key : Text) : Except Fail Expr × St :=
   match self.core with
   | .set _ _ items =>
-    match findBind key items with
+    match findBindKey key items with
     | some (_, v) =>
       -- attach_resolution_context(value, owner=self)
       match scopesForOwner k st self with
